@@ -9,6 +9,16 @@ ALL = ['C%02d' % i for i in range(1, 21)]
 
 # id -> (spec modules, technique, level text, level note, design ref)
 CHECKS = {
+    'C15': (['PathParser.tla', 'Trace_PathParser.tla'],
+            'TLA+ spec PathParser.tla (documented grammar as recogniser + 9-state character automaton) model-checked by TLC over every '
+            'string up to length 5/6 over a 12-symbol alphabet; TLC-emitted verdicts replayed into NodePathParser; recorded parser '
+            'outcomes for long expressions and mutations validated by TLC (Trace_PathParser.tla)',
+            'TLC checks the automaton against the grammar on every string of the bounded space, and every such string is parsed by the '
+            'real parser with verdict, exception type, slices, components and the print/parse round trip compared; beyond the bound, '
+            'recorded outcomes of the real parser are trace-validated against the same specification.',
+            'Trusted: TLC; the reading of docs/internals.rst written down in PathParser.tla (ID = [0-9A-Z]+, first separator not ".", '
+            'integers optionally signed); the slice projection of the driver.',
+            'DESIGN.md section 3 C15'),
     'C19': (['BitStream.tla', 'Bits.tla'],
             'TLA+ spec BitStream.tla model-checked by TLC (exhaustive widths 1..64 x value classes x offsets 0..7 + -simulate); '
             'every TLC behaviour replayed step by step into the real bit writer/reader',
